@@ -293,11 +293,16 @@ class Gen:
             if len(m.atoms) < 2:
                 return dict(k="add_atom", s=s, a=self.absent_atom(m), t=self.el(), kw=self.kw())
             ats = m.sorted_atoms()
-            free = [(x, y) for i, x in enumerate(ats) for y in ats[i + 1:] if B(x, y) not in m.bonds]
+            nb = m.neighbours()
+            cap = 6 if m.is_stereo else 8   # colouring cost is factorial in the degree
+            free = [(x, y) for i, x in enumerate(ats) for y in ats[i + 1:]
+                    if B(x, y) not in m.bonds and len(nb[x]) < cap and len(nb[y]) < cap]
             if free and rng.random() < 0.85:
                 x, y = rng.choice(free)
             else:
                 x, y = rng.sample(ats, 2)
+                if B(x, y) not in m.bonds and (len(nb[x]) >= cap or len(nb[y]) >= cap):
+                    return dict(k="q", s=s, q="len")
             if rng.random() < 0.5:
                 x, y = y, x
             kw = self.kw(BATTR_KEYS)
@@ -378,7 +383,9 @@ class Gen:
         rng = self.rng
         if len(m.atoms) >= 2 and rng.random() < 0.6:
             ats = m.sorted_atoms()
-            free = [(x, y) for i, x in enumerate(ats) for y in ats[i + 1:] if B(x, y) not in m.bonds]
+            nb = m.neighbours()
+            free = [(x, y) for i, x in enumerate(ats) for y in ats[i + 1:]
+                    if B(x, y) not in m.bonds and len(nb[x]) < 6 and len(nb[y]) < 6]
             if free:
                 x, y = rng.choice(free)
                 return dict(k="add_bond", s=s, a=x, b=y, kw={})
@@ -616,7 +623,12 @@ class Gen:
             p = rng.choice((0.25, 0.4, 0.6))
             bonds = [(ids[i], ids[j]) for i in range(n) for j in range(i + 1, n) if rng.random() < p]
         rng.shuffle(bonds)
+        deg = {}
         for x, y in bonds:
+            if deg.get(x, 0) >= 6 or deg.get(y, 0) >= 6:
+                continue
+            deg[x] = deg.get(x, 0) + 1
+            deg[y] = deg.get(y, 0) + 1
             if rng.random() < 0.5:
                 x, y = y, x
             kw = self.kw(BATTR_KEYS)
@@ -1057,12 +1069,17 @@ class Gen:
         k = rng.choice(ch)
         ats = m.sorted_atoms()
         if k == "add_bond" and len(ats) >= 2:
-            free = [(x, y) for i, x in enumerate(ats) for y in ats[i + 1:] if B(x, y) not in m.bonds]
+            nb = m.neighbours()
+            free = [(x, y) for i, x in enumerate(ats) for y in ats[i + 1:]
+                    if B(x, y) not in m.bonds and len(nb[x]) < 6 and len(nb[y]) < 6]
             if free:
                 x, y = rng.choice(free)
                 return dict(k="add_bond", s=s, a=x, b=y, kw={})
         if k == "remove_bond" and m.bonds:
-            x, y = self.present_bond(m)
+            plain = [b for b in m.sorted_bonds() if B(*b) not in m.bstereo]
+            x, y = rng.choice(plain) if plain else self.present_bond(m)
+            if B(x, y) in m.bstereo:
+                return dict(k="del_bstereo", s=s, a=x, b=y)
             return dict(k="remove_bond", s=s, a=x, b=y)
         if k in ("set_astereo", "reclass"):
             d = self.atom_desc(m, cls=rng.choice(geom.ATOM_CLASSES) if k == "reclass" else None)
